@@ -23,6 +23,7 @@ profile. They exist because seeded changes of round 2 needed them to manifest (D
  p_shadowed_provider  >= 3 providers of one feature spread over a context chain of depth >= 3, and a nearer context re-defining one of
                       them WITHOUT the feature (the shadowed provider drops out; the others keep nearest-first order); plain / unique
  p_two_patched_downloads  two (or three) different downloaded modules with patches in one build: every one of them renders the GIT_PATCH rule
+ p_custom_build_no_out a custom build (`build:`) without `out` / with an empty `out` list, in a configured build
  p_subdirs_later_doc  a multi-document file listing a sub-directory from a document that is not the first, with different defaults
 """
 import copy, random
@@ -389,6 +390,18 @@ def two_patched_downloads(p, rng):
         a[kk] = [names[0]] + [rng.choice(["", "?"]) + x for x in names[1:]] + list(a.get(kk) or [])
 
 
+def custom_build_no_out(p, rng):
+    root = _root(p)
+    mods = root.setdefault("modules", [])
+    b = {"cmd": ["regen-tables"]}
+    if rng.random() < 0.4:
+        b["out"] = []
+    mods.append({"name": "nbo", "build": b, **({"is_build_dep": True} if rng.random() < 0.5 else {})})
+    for kind, a, pa, dd in list(_modules(p, ("apps",)))[: rng.randint(1, 2)]:
+        kk = "selects" if "selects" in a or "depends" not in a else "depends"
+        a[kk] = list(a.get(kk) or []) + [rng.choice(["nbo", "nbo", "?nbo"])]
+
+
 def subdirs_later_doc(p, rng):
     docs = p["files"]["laze-project.yml"]
     root = docs[0]
@@ -406,7 +419,7 @@ def subdirs_later_doc(p, rng):
 
 
 SHAPES = [("p_rule_rename_chain", rule_rename_chain), ("p_ifthen_feature_cond", ifthen_feature_cond), ("p_empty_blockallow", empty_blockallow),
-          ("p_rule_export_escape", rule_export_escape), ("p_optsrc_same_guard", optsrc_same_guard), ("p_subdirs_later_doc", subdirs_later_doc), ("p_two_patched_downloads", two_patched_downloads), ("p_shadowed_provider", shadowed_provider),
+          ("p_rule_export_escape", rule_export_escape), ("p_optsrc_same_guard", optsrc_same_guard), ("p_subdirs_later_doc", subdirs_later_doc), ("p_custom_build_no_out", custom_build_no_out), ("p_two_patched_downloads", two_patched_downloads), ("p_shadowed_provider", shadowed_provider),
           ("p_dup_listing", dup_listing), ("p_ctx_shuffle", ctx_shuffle), ("p_app_dup", app_dup), ("p_rule_field_variant", rule_field_variant),
           ("p_defaults_lists", defaults_lists), ("p_global_dep_order", global_dep_order), ("p_late_ifthen_leaf", late_ifthen_leaf)]
 
